@@ -22,3 +22,7 @@ Proof. exact square_column_quote. Qed.
 Theorem C07_quoted_segment_one_token : forall q s rest, (match rest with c :: _ => c =? q | [] => false end) = false ->
   lex_string q (quote q s ++ rest) = Some (quote q s, rest).
 Proof. exact lex_one. Qed.
+
+(* non-vacuity: two segments, the first containing a dot and a blank ("a.b c", "d") *)
+Example C07_premise_satisfiable : Forall okseg [[97; 46; 98; 32; 99]; [100]] /\ split_field (join_dot (map lit_field [[97; 46; 98; 32; 99]; [100]])) = [[97; 46; 98; 32; 99]; [100]].
+Proof. split; [repeat constructor; discriminate|vm_compute; reflexivity]. Qed.
